@@ -184,7 +184,7 @@ class ShortStream:
         return self.src.readline(self.k if n is None or n < 0 else min(n, self.k))
 
 
-DELIVERIES = ['bytesio-offset', 'plain', 'body-read-first', 'body-sniffed-first', 'one-byte-reads', 'half-reads', 'chunked', 'chunked-3', 'chunked-upper', 'chunked-emptycl', 'chunked-withcl', 'chunked-smallcl']
+DELIVERIES = ['bytesio-offset', 'plain', 'body-read-first', 'body-sniffed-first', 'one-byte-reads', 'half-reads', 'chunked', 'chunked-3', 'chunked-upper', 'chunked-emptycl', 'chunked-withcl', 'chunked-smallcl', 'retarget-chunked']
 
 
 def observe_forms(Request, body_text, qs='', ctype='rotate', delivery='plain'):
@@ -220,6 +220,17 @@ def observe_forms(Request, body_text, qs='', ctype='rotate', delivery='plain'):
     elif delivery == 'half-reads':
         env['wsgi.input'] = ShortStream(body, max(1, (len(body) + 1) // 2))
     r = Request(env)
+    if delivery == 'retarget-chunked':
+        # the request object first served a plain form; then it (a copy of it) is pointed at a chunked form through request[...]
+        r0 = Request({'QUERY_STRING': qs, 'CONTENT_LENGTH': '3', 'wsgi.input': io.BytesIO(b'o=1'), 'REQUEST_METHOD': 'POST', 'CONTENT_TYPE': 'application/x-www-form-urlencoded'})
+        if _plain(r0.forms) != {'o': '1'}:
+            raise AssertionError('the plain form o=1 was not read')
+        r = r0.copy()
+        raw = b''.join(b'%x\r\n%s\r\n' % (len(body[i:i + 11]), body[i:i + 11]) for i in range(0, len(body), 11)) + b'0\r\n\r\n'
+        r['HTTP_TRANSFER_ENCODING'] = 'chunked'
+        r['wsgi.input'] = io.BytesIO(raw)
+        if ctype is not None:
+            r['CONTENT_TYPE'] = ctype
     if delivery == 'body-read-first':          # the handler looks at the raw body before it asks for the form
         if r.body.read() != body:
             raise AssertionError('raw body differs from what was sent')
@@ -544,6 +555,7 @@ def replay(case):
                'bytesio-offset': ' (wsgi.input is a BytesIO of the whole connection, positioned at the start of the body)',
                'chunked-upper': ' (sent with Transfer-Encoding: chunked, 11-byte chunks, sizes in upper-case hex)',
                'chunked-emptycl': ' (sent with Transfer-Encoding: chunked in 11-byte chunks, the environ has CONTENT_LENGTH = "")',
+               'retarget-chunked': ' (a copy of a request that served the plain form o=1 is pointed at this form, sent chunked, through request[...] = ...)',
                'chunked-smallcl': ' (sent with Transfer-Encoding: chunked in 11-byte chunks AND a Content-Length header of half the length of the form: the transfer coding decides, RFC 7230 3.3.3)',
                'chunked-withcl': ' (sent with Transfer-Encoding: chunked in 11-byte chunks AND a Content-Length header giving the length of the encoded stream)',
                'chunked': ' (sent with Transfer-Encoding: chunked, one chunk)', 'chunked-3': ' (sent with Transfer-Encoding: chunked, chunks of 3 bytes)',
